@@ -2,6 +2,7 @@ package harness
 
 import (
 	"context"
+	"math"
 	"reflect"
 	"sync"
 	"time"
@@ -37,6 +38,7 @@ type exFnPlan struct {
 	gap        pause // how long it keeps running after an early resolve
 	unresolved bool  // work-style only: return without calling resolve (fault unresolved_work)
 	double     bool  // work-style only: call resolve a second time with another value (must be ignored)
+	hedged     bool  // work-style only: two tasks call resolve concurrently with different values (one wins, for every caller)
 	errKind    int   // 0: (res,nil)  1: (nil,err)  2: (res,err)
 	holdInGap  bool  // held (if its key is the held key) after resolving instead of before
 }
@@ -55,13 +57,15 @@ type exOpPlan struct {
 	optRate      time.Duration // ExclusiveRateLimit(ctx, optRate) when > 0
 	optOuter     bool          // an outermost ExclusiveWrapper that stamps the whole wrapped work function
 	optWait      bool
-	optRateFirst bool // option order: rate limit before / after the work option
+	negWait      time.Duration // a raw wait <= 0 passed instead of wait*unit
+	optRateFirst bool          // option order: rate limit before / after the work option
 	fn           exFnPlan
 }
 
 type exRes struct {
 	exec  int
 	bogus bool
+	alt   bool // the second candidate of a hedged resolve
 }
 
 type exErr struct{ exec int }
@@ -97,6 +101,12 @@ type exExecRec struct {
 	err        error
 	answered   int
 	held       bool
+	bodyBegan  bool        // the user-supplied work function itself started (not only a wrapper around it)
+	hedged     bool        // resolved by two concurrent resolve calls: (res,err) or (alt,nil), the same for every caller
+	alt        interface{} // the second candidate
+	hres       interface{} // the first candidate
+	herr       error
+	winner     *exCallRec  // first call seen answered by this hedged execution
 }
 
 type exWorld struct {
@@ -137,6 +147,8 @@ func drawExFn(work bool) exFnPlan {
 			f.unresolved = true
 		case 4:
 			f.double = true
+		case 5:
+			f.hedged = simrt.Chance(1, 2)
 		}
 	}
 	return f
@@ -151,6 +163,11 @@ func drawExOp(nKeys int) *exOpPlan {
 	switch op.kind {
 	case exCallAfter, exCallAfterAsync, exStartAfter:
 		op.wait = time.Duration(simrt.DrawRange(0, 6)) // 0 is legal: "if wait is <= 0 it will be ignored"
+		if op.wait == 0 && simrt.Chance(1, 3) {
+			// negative waits are ignored too, whatever their magnitude
+			op.negWait = []time.Duration{-1, -time.Hour, math.MinInt64 + 1, math.MinInt64}[simrt.Draw(4)]
+			simrt.Probe("negative_wait")
+		}
 	}
 	work := false
 	if op.kind == exOptions {
@@ -241,6 +258,7 @@ func (w *exWorld) result(e *exExecRec, kind int) (interface{}, error) {
 // workBody is what a work-style function does between begin and end.
 func (w *exWorld) workBody(c *exCallRec, e *exExecRec, resolve func(interface{}, error)) {
 	f := &c.op.fn
+	e.bodyBegan = true
 	f.body.do(w.unit)
 	if f.lockPoint {
 		w.mu.Lock()
@@ -254,6 +272,17 @@ func (w *exWorld) workBody(c *exCallRec, e *exExecRec, resolve func(interface{},
 		return
 	}
 	r, err := w.result(e, f.errKind)
+	if f.hedged {
+		// hedged attempts: two tasks resolve at about the same time; exactly one of them counts
+		simrt.Probe("resolve_called_concurrently")
+		e.hedged, e.alt, e.hres, e.herr = true, &exRes{exec: e.id, alt: true}, r, err
+		var wg sync.WaitGroup
+		wg.Add(2)
+		go func() { defer wg.Done(); resolve(r, err) }()
+		go func() { defer wg.Done(); resolve(e.alt, nil) }()
+		wg.Wait()
+		return
+	}
 	resolve(r, err)
 	if f.double {
 		simrt.Probe("resolve_called_twice")
@@ -323,6 +352,9 @@ func (w *exWorld) outer(c *exCallRec) func(bigbuff.WorkFunc) bigbuff.WorkFunc {
 				resolve(r, err)
 			})
 			c.cur = nil
+			if e.resolved && e.bodyBegan && c.op.fn.unresolved {
+				w.fail("C10", "C10.unresolved-masked", "the work function of call %d started, and returned without resolving, yet a wrapper between it and the Exclusive resolved (%v,%v) on its behalf: the outcome must be the resolve-not-called error", c.id, e.res, e.err)
+			}
 			if !e.resolved && !c.op.fn.unresolved {
 				// value-style inside a wrapper resolves through resolve(value()), so this cannot
 				// happen unless the rate limit skipped the function without resolving
@@ -359,6 +391,9 @@ func (w *exWorld) perform(c *exCallRec) {
 	op := c.op
 	key := w.keys[op.key]
 	wait := op.wait * w.unit
+	if op.negWait != 0 {
+		wait = op.negWait
+	}
 	value := w.valueFn(c)
 	if op.minDur > 0 {
 		value = bigbuff.MinDuration(op.minDur*w.unit, value)
@@ -490,6 +525,21 @@ func (w *exWorld) checkAnswered(final bool) bool {
 					w.fail("C10", "C10.stale-result", "call %d (%s, key %d) was invoked at stamp %d but received the outcome of execution %d which had started earlier, at stamp %d",
 						c.id, exKindName[c.op.kind], c.key, c.inv, e.id, e.start)
 					return false
+				}
+				if e.hedged {
+					if !(c.res == e.alt && c.err == nil) && !(c.res == e.hres && c.err == e.herr) {
+						w.fail("C10", "C10.wrong-outcome", "call %d received (%v,%v), which is neither of the two values execution %d resolved with concurrently", c.id, c.res, c.err, e.id)
+						return false
+					}
+					if e.winner == nil {
+						e.winner = c
+					} else if o := e.winner; o.res != c.res || o.err != c.err {
+						w.fail("C10", "C10.wrong-outcome", "calls %d and %d were both answered by execution %d (two concurrent resolve calls) but received different outcomes (%v,%v) and (%v,%v); coalesced callers must see the identical result and error",
+							o.id, c.id, e.id, o.res, o.err, c.res, c.err)
+						return false
+					}
+					c.answeredBy = e
+					continue
 				}
 				if !e.resolved || e.res != c.res || e.err != c.err {
 					w.fail("C10", "C10.wrong-outcome", "call %d received (%v,%v) but execution %d resolved=%v with (%v,%v); coalesced callers must see the identical result and error",
@@ -759,6 +809,14 @@ func exclusiveRun(prop string) {
 		}
 	}
 	if !w.checkAnswered(true) {
+		return
+	}
+	// Every duration this run asked for (waits, rate limits, minimum durations, pauses) is a few
+	// microseconds and there are at most 14 calls: a run that needed more than a simulated minute to
+	// answer them let some call sit in a wait nobody requested ("ignored" waits included). The
+	// discrete-event clock jumps over such a wait, so it has to be read off the clock.
+	if now := simrt.Now(); now > time.Minute {
+		w.fail("C10", "C10.answered-after-unrequested-wait", "all calls were answered, but only after %v of simulated time although every requested wait, rate and pause is a few microseconds: a call sat in a wait nobody asked for (waits <= 0 are documented as ignored)", now)
 		return
 	}
 	w.reachProbes()
